@@ -114,8 +114,10 @@ JustifyLoop(signs, m, x, cnt, seen) ==
    "nilvals"     justifyValidators == nil
    "nilpid"      parent.GetProposalId() == nil
    "orphan_near" parent unknown, proposal view within (root.parentView, root.view + 6]
-   "orphan_far"  parent unknown, proposal view outside that window *)
-Frames == {"std", "lowview", "nilvals", "nilpid", "orphan_near", "orphan_far"}
+   "orphan_far"  parent unknown, proposal view outside that window
+   "highqc"      the certified id is the node's own HighQC (the root after a start): no local knowledge replaces the
+                 signatures, the certificate is judged like any other *)
+Frames == {"std", "lowview", "nilvals", "nilpid", "orphan_near", "orphan_far", "highqc"}
 CheckProposal(frame, m, signs) ==
   IF frame = "lowview" THEN [res |-> "reject", why |-> "TooLowProposalView", dev |-> FALSE]
   ELSE IF frame = "nilvals" THEN [res |-> "reject", why |-> "EmptyValidators", dev |-> FALSE]
